@@ -23,7 +23,7 @@ impl<T> Vec<T> {
 
     #[verifier::external_body]
     pub fn iter<'a>(&'a self) -> (r: Iter<'a, T>)
-        ensures r@ == self@,
+        ensures r@ == self@, r.items() == refs(self@),
     { unimplemented!() }
 
     #[verifier::external_body]
@@ -58,6 +58,122 @@ pub struct Iter<'a, T> { _p: core::marker::PhantomData<&'a T> }
 impl<'a, T> View for Iter<'a, T> {
     type V = Seq<T>;
     uninterp spec fn view(&self) -> Seq<T>;
+}
+
+} // verus!
+
+// ---------------------------------------------------------------- iterator adapters (ASSUMED contracts on core::iter)
+verus! {
+
+// first element of `s` satisfying `q`
+pub open spec fn first<T>(s: Seq<T>, q: spec_fn(T) -> bool) -> Option<T>
+    decreases s.len(),
+{
+    if s.len() == 0 {
+        None
+    } else if q(s[0]) {
+        Some(s[0])
+    } else {
+        first(s.drop_first(), q)
+    }
+}
+
+// the sequence of references to the elements of `s` (what slice::Iter yields)
+pub open spec fn refs<'a, T>(s: Seq<T>) -> Seq<&'a T> { Seq::new(s.len(), |i: int| &s[i]) }
+
+// an executable predicate closure `f` decides the spec predicate `q`
+pub open spec fn decides<T, F: Fn(&T) -> bool>(f: F, q: spec_fn(T) -> bool) -> bool {
+    &&& forall|t: T| #[trigger] f.requires((&t,))
+    &&& forall|t: T| #[trigger] f.ensures((&t,), true) ==> q(t)
+    &&& forall|t: T| #[trigger] f.ensures((&t,), false) ==> !q(t)
+}
+
+pub trait Iterator: Sized {
+    type Item;
+
+    // the elements still to be yielded
+    spec fn items(&self) -> Seq<Self::Item>;
+
+    // core::iter::Iterator::find: the first element on which the predicate returns true
+    fn find<P: Fn(&Self::Item) -> bool>(&mut self, predicate: P) -> (r: Option<Self::Item>)
+        requires forall|t: Self::Item| #[trigger] predicate.requires((&t,)),
+        ensures forall|q: spec_fn(Self::Item) -> bool| decides(predicate, q) ==> r == #[trigger] first(old(self).items(), q);
+
+    // core::iter::Iterator::filter: the subsequence on which the predicate returns true
+    fn filter<P: Fn(&Self::Item) -> bool>(self, predicate: P) -> (r: Filter<Self::Item, P>)
+        requires forall|t: Self::Item| #[trigger] predicate.requires((&t,)),
+        ensures forall|q: spec_fn(Self::Item) -> bool| decides(predicate, q) ==> r.fitems() == #[trigger] self.items().filter(q);
+
+    // core::iter::Iterator::map
+    fn map<B, F: Fn(Self::Item) -> B>(self, f: F) -> (r: Map<B, F>)
+        requires forall|t: Self::Item| #[trigger] f.requires((t,)),
+        ensures forall|g: spec_fn(Self::Item) -> B| (forall|t: Self::Item, b: B| #[trigger] f.ensures((t,), b) ==> b == g(t))
+            ==> r.mitems() == #[trigger] self.items().map_values(g);
+
+    // core::iter::Iterator::any
+    fn any<P: Fn(Self::Item) -> bool>(&mut self, predicate: P) -> (r: bool)
+        requires forall|t: Self::Item| #[trigger] predicate.requires((t,)),
+        ensures forall|q: spec_fn(Self::Item) -> bool|
+            ((forall|t: Self::Item| #[trigger] predicate.ensures((t,), true) ==> q(t)) && (forall|t: Self::Item| #[trigger] predicate.ensures((t,), false) ==> !q(t)))
+            ==> r == (#[trigger] first(old(self).items(), q) is Some);
+}
+
+impl<'a, T> Iterator for Iter<'a, T> {
+    type Item = &'a T;
+    open spec fn items(&self) -> Seq<&'a T> { refs(self@) }
+    #[verifier::external_body]
+    fn find<P: Fn(&Self::Item) -> bool>(&mut self, predicate: P) -> (r: Option<Self::Item>) { unimplemented!() }
+    #[verifier::external_body]
+    fn filter<P: Fn(&Self::Item) -> bool>(self, predicate: P) -> (r: Filter<Self::Item, P>) { unimplemented!() }
+    #[verifier::external_body]
+    fn any<P: Fn(Self::Item) -> bool>(&mut self, predicate: P) -> (r: bool) { unimplemented!() }
+    #[verifier::external_body]
+    fn map<B, F: Fn(Self::Item) -> B>(self, f: F) -> (r: Map<B, F>) { unimplemented!() }
+}
+
+#[verifier::external_body]
+#[verifier::reject_recursive_types(T)]
+#[verifier::reject_recursive_types(P)]
+pub struct Filter<T, P> { _p: core::marker::PhantomData<(T, P)> }
+
+impl<T, P> Filter<T, P> {
+    pub uninterp spec fn fitems(&self) -> Seq<T>;
+}
+
+impl<T, P0> Iterator for Filter<T, P0> {
+    type Item = T;
+    open spec fn items(&self) -> Seq<T> { self.fitems() }
+    #[verifier::external_body]
+    fn find<P: Fn(&Self::Item) -> bool>(&mut self, predicate: P) -> (r: Option<Self::Item>) { unimplemented!() }
+    #[verifier::external_body]
+    fn filter<P: Fn(&Self::Item) -> bool>(self, predicate: P) -> (r: Filter<Self::Item, P>) { unimplemented!() }
+    #[verifier::external_body]
+    fn any<P: Fn(Self::Item) -> bool>(&mut self, predicate: P) -> (r: bool) { unimplemented!() }
+    #[verifier::external_body]
+    fn map<B, F: Fn(Self::Item) -> B>(self, f: F) -> (r: Map<B, F>) { unimplemented!() }
+}
+
+
+#[verifier::external_body]
+#[verifier::reject_recursive_types(T)]
+#[verifier::reject_recursive_types(F)]
+pub struct Map<T, F> { _p: core::marker::PhantomData<(T, F)> }
+
+impl<T, F> Map<T, F> {
+    pub uninterp spec fn mitems(&self) -> Seq<T>;
+}
+
+impl<T, F0> Iterator for Map<T, F0> {
+    type Item = T;
+    open spec fn items(&self) -> Seq<T> { self.mitems() }
+    #[verifier::external_body]
+    fn find<P: Fn(&Self::Item) -> bool>(&mut self, predicate: P) -> (r: Option<Self::Item>) { unimplemented!() }
+    #[verifier::external_body]
+    fn filter<P: Fn(&Self::Item) -> bool>(self, predicate: P) -> (r: Filter<Self::Item, P>) { unimplemented!() }
+    #[verifier::external_body]
+    fn any<P: Fn(Self::Item) -> bool>(&mut self, predicate: P) -> (r: bool) { unimplemented!() }
+    #[verifier::external_body]
+    fn map<B, F: Fn(Self::Item) -> B>(self, f: F) -> (r: Map<B, F>) { unimplemented!() }
 }
 
 } // verus!
